@@ -34,6 +34,8 @@ def run(ctx):
                    ('R20.4', 'processFilesTxt rejects a cache file that exists but does not parse')]:
         ctx.rule(rid, t)
 
+    r20_5(ctx)
+
     # ---- R20.1 -----------------------------------------------------------------------------------------
     af = F.one('AnalyzerInformation::analyzeFile')
     body = F.body(af)['body']
@@ -207,3 +209,73 @@ def run(ctx):
                'the parsed cache document is used at line %s only when LoadFile returned XML_SUCCESS' % n['l'] if dominated else
                'the cache document is used at line %s on a path where LoadFile did not return XML_SUCCESS: a truncated file contributes a prefix of its records'
                % n['l'], '%s:%s' % (pf['file'], n['l']))
+
+
+def may_report_set(F):
+    """keys of all functions from which a virtual ErrorLogger::reportErr call is reachable (reverse closure over call edges)."""
+    callers = {}
+    for f in F.all_fns():
+        for g, c in F.callees(f, None):
+            callers.setdefault(F.key(g), set()).add(F.key(f))
+    work = [F.key(f) for f in F.all_fns() if f['name'].endswith('::reportErr')]
+    seen = set(work)
+    while work:
+        k = work.pop()
+        for c in callers.get(k, ()):
+            if c not in seen:
+                seen.add(c)
+                work.append(c)
+    return seen
+
+
+def r20_5(ctx):
+    """R20.5  the cache file of a source file is closed (gets its closing tag) only after everything that can report a
+    finding for that file has run: in CppCheck::checkInternal no call that may reach ErrorLogger::reportErr is executed on a
+    path after a call that (inside AnalyzerInformation) reaches close().  Otherwise a kill between the two leaves a complete,
+    acceptable cache file that lacks the later findings."""
+    F = ctx.facts
+    ctx.rule('R20.5', 'no finding-producing call follows the closing of the cache file in checkInternal')
+    ci = F.one('CppCheck::checkInternal')
+    body = F.body(ci)['body']
+    close = F.one('AnalyzerInformation::close')
+    closers = set()
+    for f in F.all_fns():
+        if f.get('cls') == 'AnalyzerInformation' or f['name'].startswith('AnalyzerInformation::'):
+            r = F.reachable([f], stop=lambda g: not g['name'].startswith('AnalyzerInformation::'))
+            if F.key(close) in r:
+                closers.add(f['name'])
+    reporters = may_report_set(F)
+    ctx.counts['AnalyzerInformation methods that reach close()'] = len(closers)
+
+    def is_closer(n):
+        if n.get('k') == 'CXXMemberCallExpr':
+            fn = n.get('fn') or ''
+            if fn in closers:
+                return True
+            # unique_ptr<AnalyzerInformation>::reset() destroys the object -> destructor -> close()
+            if fn.startswith('std::unique_ptr<AnalyzerInformation') and fn.endswith('::reset') and not [a for a in call_args(n) if a.get('k') != 'DefaultArg']:
+                return 'AnalyzerInformation::~AnalyzerInformation' in closers
+        return False
+
+    def is_reporter(n):
+        if n.get('k') in ('CallExpr', 'CXXMemberCallExpr', 'CXXConstructExpr') and n.get('fid'):
+            if n.get('k') == 'CXXMemberCallExpr' and (n.get('fn') or '').startswith('AnalyzerInformation::'):
+                return False
+            for g in F.resolve(ci, n['fid'], n.get('virt', False)):
+                if F.key(g) in reporters:
+                    return True
+        return False
+
+    m = paths.Must(kill=lambda n: ('open',) if is_closer(n) else (), observe=is_reporter, lambda_inline=True)
+    out, br, co = m.stmt(body, frozenset({'open'}))
+    sites = sorted(((m.res.at_node[i], st) for i, st in m.res.at.items()), key=lambda t: t[0]['l'])
+    ctx.floor('R20.5 finding-producing call sites in checkInternal', len(sites), 10)
+    nclose = sum(1 for x in walk(body) if is_closer(x))
+    ctx.floor('R20.5 closing call sites in checkInternal', nclose, 2)
+    bad = [(n, st) for n, st in sites if 'open' not in st]
+    ctx.ob('R20.5', 'report-after-close', not bad,
+           'every call in checkInternal that can report a finding is executed while the cache file is still unterminated (%d call sites, %d closing sites)' % (len(sites), nclose)
+           if not bad else
+           'CppCheck::checkInternal calls %s at line %s on a path where the cache file has already been closed (closing tag written): a run killed in between leaves a '
+           'well-formed cache file with the right key that lacks these findings, and the next run replays it' % (bad[0][0].get('fn'), bad[0][0]['l']),
+           '%s:%s' % (ci['file'], bad[0][0]['l'] if bad else ci['line']))
